@@ -404,13 +404,20 @@ def run_parent(pid: str, tier: str, workers: int | None = None) -> int:
             have = merged["classes"].get(cls, 0) + merged["monitors"].get(cls, 0)
             if have < k:
                 reasons.append(f"required class/monitor '{cls}' observed {have} < {k}")
-        for a in getattr(mod, "ANCHORS_REQUIRED", getattr(mod, "ANCHORS", [])):
+        # Anchors are coverage evidence, keyed by private names a refactoring may rename, move or stop calling; the behavioural
+        # monitors and classes above (REQUIRED) carry the verdict and the inconclusive rule.
+        anchors = getattr(mod, "ANCHORS_REQUIRED", getattr(mod, "ANCHORS", []))
+        reached = 0
+        for a in anchors:
             info = merged["anchors"].get(a, {})
             if not info.get("resolved", True):
-                # the anchored function no longer exists under that name (refactoring): recorded, the behavioural monitors carry the verdict
                 merged["notes"].setdefault("anchors_not_found", []).append(a)
             elif info.get("calls", 0) == 0:
-                reasons.append(f"anchored mechanism {a} was never reached")
+                merged["notes"].setdefault("anchors_not_reached", []).append(a)
+            else:
+                reached += 1
+        if anchors and not reached:
+            merged["notes"]["anchors"] = "none of the anchored functions executed under its recorded name; the verdict rests on the monitors and classes"
         if merged["evaluations"] == 0:
             reasons.append("no monitored execution at all")
 
